@@ -6,10 +6,11 @@ ALL = ["C%02d" % i for i in range(1, 21)]
 def load(pid):
     mod = importlib.import_module("sa.props.%s" % pid.lower())
     if not getattr(mod, "_shared_rules_added", False):
-        from ..shared import slot_rule, resolution_rule, guarded_helpers_rule, GUARDED_HELPERS
+        from ..shared import slot_rule, resolution_rule, guarded_helpers_rule, GUARDED_HELPERS, new_state_rule
 
         mod.RULES.append(slot_rule(mod.ID))
         mod.RULES.append(resolution_rule(mod.ID))
+        mod.RULES.append(new_state_rule(mod.ID))
         if GUARDED_HELPERS.get(mod.ID):
             mod.RULES.append(guarded_helpers_rule(mod.ID))
         mod._shared_rules_added = True
